@@ -29,7 +29,10 @@ RULE = ("(a) rule-based state machine (Hypothesis) on a scratch settings file: s
         "attribute by attribute with int-typed options int, -c priority, SETTINGS override in memory only, and evo_ape with the "
         "generated config writes the same archive as with the arguments. Non-trivial = (a) >= 2 edits touching >= 2 keys incl. a "
         "bool or list key, (b) a list with an int-typed, negative or multi-value option; distinct by SHA-1"
-        ' Round-3 additions: reset through evo_config (with/without -y, with parameters), upgrades from a version differing only in the patch or minor component.')
+        ' Round-3 additions: reset through evo_config (with/without -y, with parameters), upgrades from a version differing only in the patch or minor component.'
+        ' Round-7 addition (cfg_override): the real console entry points of evo_traj / evo_res / evo_ape in fresh processes - package settings given in '
+        'the -c file (table_export_format/transpose/data, save_traj_in_zip) must produce byte-identical output to the same values in settings.json, '
+        'which itself must stay untouched; non-trivial there = a value different from the default.')
 ASSUMPTIONS = ["tokens nan/inf/1e400 make set_config raise before writing: a refused edit (file must be byte-identical)",
                "string option values in (b) do not look like numbers or flags (the documented form of evo_config generate)"]
 KEYS = list(DEFAULT_SETTINGS_DICT.keys())
